@@ -268,31 +268,27 @@ static void DecodeAdr(tStrComp const* pArg) {
     DispAcc   = 0;
     FoundSize = -1;
     StrCompRefRight(&Arg, pArg, 0);
-    if (!as_strncasecmp(Arg.str.p_str, "WORD PTR", 8)) {
-        StrCompIncRefLeft(&Arg, 8);
-        FoundSize = 1;
-        IsImm     = False;
-        KillPrefBlanksStrCompRef(&Arg);
-    } else if (!as_strncasecmp(Arg.str.p_str, "BYTE PTR", 8)) {
-        StrCompIncRefLeft(&Arg, 8);
-        FoundSize = 0;
-        IsImm     = False;
-        KillPrefBlanksStrCompRef(&Arg);
-    } else if (!as_strncasecmp(Arg.str.p_str, "DWORD PTR", 9)) {
-        StrCompIncRefLeft(&Arg, 9);
-        FoundSize = 2;
-        IsImm     = False;
-        KillPrefBlanksStrCompRef(&Arg);
-    } else if (!as_strncasecmp(Arg.str.p_str, "QWORD PTR", 9)) {
-        StrCompIncRefLeft(&Arg, 9);
-        FoundSize = 3;
-        IsImm     = False;
-        KillPrefBlanksStrCompRef(&Arg);
-    } else if (!as_strncasecmp(Arg.str.p_str, "TBYTE PTR", 9)) {
-        StrCompIncRefLeft(&Arg, 9);
-        FoundSize = 4;
-        IsImm     = False;
-        KillPrefBlanksStrCompRef(&Arg);
+    {
+        static char const* const SizeNames[] = {"BYTE", "WORD", "DWORD", "QWORD", "TBYTE"};
+        int                      Size;
+
+        for (Size = 0; Size < 5; Size++) {
+            size_t Len = strlen(SizeNames[Size]), Pos;
+
+            if (as_strncasecmp(Arg.str.p_str, SizeNames[Size], Len)
+                || !as_isspace(Arg.str.p_str[Len])) {
+                continue;
+            }
+            for (Pos = Len; as_isspace(Arg.str.p_str[Pos]); Pos++) {}
+            if (as_strncasecmp(Arg.str.p_str + Pos, "PTR", 3)) {
+                continue;
+            }
+            StrCompIncRefLeft(&Arg, Pos + 3);
+            FoundSize = Size;
+            IsImm     = False;
+            KillPrefBlanksStrCompRef(&Arg);
+            break;
+        }
     }
 
     if ((strlen(Arg.str.p_str) > 2) && (Arg.str.p_str[2] == ':')) {
